@@ -72,7 +72,8 @@ def run(chk: harness.Check):
         "(known, unknown, other, no_unit) directly or through another covering reader; (D3) every insert into a quantity map has its result used, is "
         "dominated by a test that the key is absent, or is a reviewed entry; (D4) all_quantities/all_amounts chain the own quantity with the quantities of "
         "referenced_from indices taken from the passed slice, group_* list definitions only, add_recipe lists should_be_listed() ingredients under display_name(). "
-        "Conservation of numbers is not decided — only that no path or reader structurally drops a quantity.")
+        "(D7) every number in the result of <Value as TryAdd>::try_add is Number::value() of the left operand plus Number::value() of the right one, start with start and end with end. "
+        "Conservation of numbers is otherwise not decided — only that no path or reader structurally drops a quantity.")
     chk.trusted = ["rustc MIR", "Vec::push / HashMap::insert store their argument", "tables/inserts.toml"]
     chk.analysed = {"facts": th}
     d1_no_drop(chk, F)
@@ -81,6 +82,7 @@ def run(chk: harness.Check):
     d4_lineage(chk, F)
     d5_text_aside(chk, F)
     d6_common_unit(chk, F)
+    d7_sum_formula(chk, F)
 
 
 def d1_no_drop(chk, F):
@@ -121,6 +123,45 @@ def d1_no_drop(chk, F):
     chk.expect(ok and len(ins) >= 2, "C10.D1-no-drop", "categorize|loop", f"{f.file}:{f.line}",
                "an iteration of IngredientList::categorize can finish without inserting the quantity into a category or into `other`",
                sample=f"{f.file}:{f.line}: every iteration inserts into a category list or `other` ({len(ins)} insert sites)")
+
+
+def d7_sum_formula(chk, F):
+    """'the grouped total equals the sum of the inputs (ranges end-wise)': every number that <Value as TryAdd>::try_add puts in its
+    result is Number::value() of the left operand plus Number::value() of the right one — value() includes a fraction's recorded
+    error — start with start and end with end; nothing is rebuilt from the fraction components or rounded on the way."""
+    from cfgq import aggregates
+    ks = [k for k in F.funcs if k.endswith("try_add") and "<quantity::Value as quantity::TryAdd>" in k]
+    if len(ks) != 1:
+        chk.fail("anchor-missing", "Value::try_add", "", f"anchor-missing: <Value as TryAdd>::try_add found {len(ks)} times")
+        return
+    R = "C10.D7-sum-formula"
+    sites = [(ff, i, st, d) for ff, i, st, d in aggregates(F, ks[0], "quantity::Value") if st["rv"]["variant"] in ("Number", "Range")]
+    chk.floor(R, "numeric Value constructions in Value::try_add", len(sites), 3)
+    for n, (ff, i, st, d) in enumerate(sites):
+        for fld, op in d.items():
+            e = resolve(ff, op)
+            while e[0] == "call" and e[1].endswith(("Into<U>>::into", "From<T>>::from", "From<f64>>::from")) and len(e[2]) == 1:
+                e = e[2][0]
+            where = f"{ff.file}:{st.get('line')}"
+            ok = e[0] == "bin" and e[1].startswith("Add")
+            why = "is not a float sum"
+            if ok:
+                sides = [e[2], e[3]]
+                ok = all(x[0] == "call" and x[1].endswith("quantity::Number::value") for x in sides)
+                why = "does not add Number::value() of both operands"
+                if ok:
+                    ls = set().union(*(leaves(x) for x in sides))
+                    txt = show(e, -80)
+                    want = {"start": (".start", ".end"), "end": (".end", ".start")}.get(fld)
+                    ok = any(l.startswith("param:self") for l in ls) and any(l.startswith("param:rhs") for l in ls)
+                    why = "does not take one operand from each side"
+                    if ok and want:
+                        ok = want[0] in txt and want[1] not in txt
+                        why = f"mixes range ends (the {fld} of the sum must come from the {fld}s)"
+            chk.expect(ok, R, f"try_add|{st['rv']['variant']}#{n}.{fld}", where,
+                       f"the {fld if fld != '0' else 'number'} of a sum {why}: it is {show(e, -80)[:140]} — the grouped total is then not the sum of the inputs "
+                       "(a fraction's recorded error or one addend is lost)",
+                       sample=f"{where}: {st['rv']['variant']}.{fld} = value(self…) + value(rhs…)")
 
 
 def d6_common_unit(chk, F):
